@@ -144,6 +144,35 @@ def hook(ex, func, argv, frame):
         if not isinstance(a[1], int) or a[1] >= 128:
             raise Unsupported('ends_with non-ASCII char')
         return True, and_(gt(s.len(), 0), eq(s.buf.at(sub(s.end, 1)), a[1]))
+    # ---- chunks_exact over a byte slice
+    if g in ('core::slice::<impl [u8]>::chunks_exact', 'core::slice::<impl [T]>::chunks_exact', 'core::slice::<impl [u8]>::chunks', 'core::slice::<impl [T]>::chunks'):
+        sl = _v(a[0])
+        import models_v2
+        sl = models_v2.as_slice(sl)
+        n = a[1]
+        if not (isinstance(sl, Str) and isinstance(n, int) and n > 0):
+            raise Unsupported('chunks on ' + repr(sl))
+        return True, Opaque('chunks', s=sl, pos=sl.start, n=n, exact=g.endswith('chunks_exact'))
+    if getattr(_v(a[0]) if a else None, 'kind', None) == 'chunks':
+        it = _v(a[0])
+        if g.endswith('::remainder'):
+            ln = it.s.len()
+            rem = ln % it.n if isinstance(ln, int) else Z(ln) % it.n
+            return True, Str(it.s.buf, sub(it.s.end, rem), it.s.end, False)
+        mt2 = re.match(r'^<.* as std::iter::Iterator>::(\w+)$', g)
+        if mt2 and mt2.group(1) == 'next':
+            if ex.branch(le(add(it.pos, it.n), it.s.end)):
+                r = Str(it.s.buf, it.pos, add(it.pos, it.n), False)
+                it.pos = add(it.pos, it.n)
+                return True, Some(r)
+            if not it.exact and ex.branch(lt(it.pos, it.s.end)):
+                r = Str(it.s.buf, it.pos, it.s.end, False)
+                it.pos = it.s.end
+                return True, Some(r)
+            return True, NoneV()
+        if mt2 and mt2.group(1) == 'by_ref':
+            return True, a[0]
+        raise Unsupported('chunks iterator method ' + g)
     if g == 'core::str::<impl str>::lines':
         s = _v(a[0])
         if ctx_of(ex, s) is None:
